@@ -53,6 +53,12 @@ def callee_name(n):
     return (None, None, None)
 
 
+def same_variant(d, f, g):
+    """two members of the same specialisation of a class of the chain (the destructor class exists once per trait)"""
+    cf, cg = ir.enclosing_class(d, f), ir.enclosing_class(d, g)
+    return cf is cg or (cf or {}).get("id") == (cg or {}).get("id")
+
+
 class Patterns:
     """the anchor function patterns, found by (class, function) and by what their bodies do"""
 
@@ -67,8 +73,16 @@ class Patterns:
                 nm = nm.split("<")[0]
             self.by.setdefault((cn, nm), []).append(f)
 
-    def calls(self, fn, name):
-        return any(n.get("kind") == "CallExpr" and callee_name(n)[1] == name for n in ir.walk_expr(fn))
+    def calls(self, fn, name, depth=0):
+        """`fn` calls `name`, itself or through further functions of its own class (a body split into helpers)"""
+        seen = [callee_name(n)[1] for n in ir.walk_expr(fn) if n.get("kind") == "CallExpr"]
+        if name in seen:
+            return True
+        if depth >= 3:
+            return False
+        cn = (ir.enclosing_class(self.d, fn) or {}).get("name")
+        return any(g is not fn and ir.body(g) is not None and self.calls(g, name, depth + 1)
+                   for nm in set(seen) if nm for g in self.by.get((cn, nm), []) if same_variant(self.d, fn, g))
 
     def get(self, cls, name, must_call=None, pred=None):
         c = [f for f in self.by.get((cls, name), []) if (must_call is None or self.calls(f, must_call)) and (pred is None or pred(f))]
@@ -405,7 +419,8 @@ class VarSim:
         ks = ir.ekids(n)
         if k == "BinaryOperator" and n.get("opcode") == "=":
             lhs = ks[0]
-            if lhs.get("kind") == "CXXDependentScopeMemberExpr" and lhs.get("member") == "index_":
+            if (lhs.get("kind") == "CXXDependentScopeMemberExpr" and lhs.get("member") == "index_") or \
+                    (lhs.get("kind") == "MemberExpr" and (lhs.get("name") or "").lstrip("->.") == "index_"):
                 b = self.val(ir.ekids(lhs)[0], fr, st) if ir.ekids(lhs) else ("ptr", fr["this"])
                 v = self.val(ks[1], fr, st)
                 if not b or b[0] not in ("obj", "ptr"):
@@ -951,18 +966,42 @@ def rule_relop(rep, d):
                 linit[n.get("name")] = ir.sx(ir.ekids(n)[-1])
         for lv, rv, o in ((True, True, "="), (True, False, "="), (False, True, "="), (False, False, "<"), (False, False, "="), (False, False, ">")):
             scen = "lhs %s, rhs %s%s" % ("valueless" if lv else "valued", "valueless" if rv else "valued", "" if (lv or rv) else ", lhs.index() %s rhs.index()" % o)
-            li = 10 ** 6 if lv else (0 if o == "<" else 1)
-            ri = 10 ** 6 if rv else (1 if o == "<" else (1 if o == "=" else 0))
+            li = 2 ** 64 - 1 if lv else (0 if o == "<" else 1)
+            ri = 2 ** 64 - 1 if rv else (1 if o == "<" else (1 if o == "=" else 0))
             if not lv and not rv and o == "=":
                 li = ri = 1
 
-            def iv(x):
+            M64 = 2 ** 64
+
+            def iv(x, depth=0, binds=None):
+                """unsigned 64-bit value of an index expression in this scenario (npos = 2^64-1 wraps like the real thing)"""
+                binds = binds or {}
                 while x[0] == "cast":
                     x = x[3]
+                if x[0] == "ref" and x[1] in binds:
+                    return binds[x[1]]
                 if x[0] == "ref" and x[1] in linit:
-                    return iv(linit[x[1]])
+                    return iv(linit[x[1]], depth, binds)
+                if x[0] == "ref" and str(x[1]).split("::")[-1] == "variant_npos":
+                    return M64 - 1
+                if x[0] == "lit":
+                    try:
+                        return int(str(x[1])) % M64
+                    except ValueError:
+                        return None
                 if x[0] == "call" and x[1][0] == "mem" and x[1][2] == "index" and x[1][1][0] == "ref":
-                    return li if x[1][1][1] == ln else (ri if x[1][1][1] == rn else None)
+                    who = binds.get("@" + x[1][1][1], x[1][1][1])
+                    return li if who == ln else (ri if who == rn else None)
+                if x[0] == "bin" and x[1] in ("+", "-"):
+                    a_, b_ = iv(x[2], depth, binds), iv(x[3], depth, binds)
+                    return None if a_ is None or b_ is None else ((a_ + b_) if x[1] == "+" else (a_ - b_)) % M64
+                if x[0] == "call" and x[1][0] == "ref" and depth < 3 and len(x) == 3 and x[2][0] == "ref" and x[2][1] in (ln, rn):
+                    # a single-return helper of the library over one operand (order_key(v) = v.index() + 1)
+                    nm_ = str(x[1][1]).split("::")[-1]
+                    for h_ in ir.functions(d, nm_):
+                        ks_ = ir.kids(ir.body(h_)) if ir.body(h_) is not None else []
+                        if len(ks_) == 1 and ks_[0].get("kind") == "ReturnStmt" and ir.ekids(ks_[0]) and len(ir.params(h_)) == 1:
+                            return iv(ir.sx(ir.ekids(ks_[0])[0]), depth + 1, {"@" + ir.params(h_)[0].get("name"): x[2][1]})
                 return None
 
             def truth(t):
@@ -1051,7 +1090,7 @@ def rule_relop(rep, d):
                 alias = re.sub(r"[{}()\s]", "", fun)
                 real = aliases.get(alias, alias)
                 ok_f = re.search(r"convert_to_bool<\s*(?:mpark::)?(?:lib::|std::)?%s\s*(?:<(?:void)?>)?\s*>" % FUNCTOR[op], real) is not None
-                ok_a = len(args) == 4 and args[0] in (("call", ("mem", ("ref", ln), "index")), ("call", ("mem", ("ref", rn), "index"))) and args[2] == ("ref", ln) and args[3] == ("ref", rn)
+                ok_a = len(args) == 4 and iv(args[0]) is not None and iv(args[0]) == li == ri and args[2] == ("ref", ln) and args[3] == ("ref", rn)
                 if not ok_f:
                     rep.violates(R, "operator" + op, "truth table", where=d.where(node), scenario=scen, detail="same-index values are compared with `%s`, expected %s" % (real, FUNCTOR[op]))
                     continue
@@ -1090,6 +1129,18 @@ def rule_guard(rep, d, pats):
         t = uncast(t)
         return t[0] == "call" and "holds_alternative" in ir.show(t[1]) and tuple(uncast(x) for x in t[2:]) == (arg,)
 
+    def holds_truth(t, arg, truth):
+        """the truth of `holds alternative I` that a condition with this outcome establishes, else None: holds_alternative<I>(arg), or arg.index() ==/!= I"""
+        t = uncast(t)
+        if is_holds(t, arg):
+            return truth
+        if t[0] == "bin" and t[1] in ("==", "!="):
+            a_, b_ = uncast(t[2]), uncast(t[3])
+            for x_, y_ in ((a_, b_), (b_, a_)):
+                if y_ == ("ref", "I") and x_[0] == "call" and len(x_) == 2 and x_[1][0] == "mem" and x_[1][2] == "index" and uncast(x_[1][1]) == arg:
+                    return truth == (t[1] == "==")
+        return None
+
     for f in ir.functions(d, "generic_get"):
         v = ir.params(f)[0].get("name")
         bad, npaths = None, 0
@@ -1097,8 +1148,8 @@ def rule_guard(rep, d, pats):
             holds = None
             threw = False
             for s_ in path:
-                if s_[0] == "cond" and is_holds(ir.sx(s_[1]), ("ref", v)):
-                    holds = s_[2]
+                if s_[0] == "cond" and holds_truth(ir.sx(s_[1]), ("ref", v), s_[2]) is not None:
+                    holds = holds_truth(ir.sx(s_[1]), ("ref", v), s_[2])
                 if s_[0] in ("ev", "throw") and s_[1] is not None and ((s_[1].get("kind") == "CallExpr" and callee_name(s_[1])[1] == "throw_bad_variant_access") or s_[1].get("kind") == "CXXThrowExpr"):
                     threw = True
             npaths += 1
@@ -1129,10 +1180,11 @@ def rule_guard(rep, d, pats):
                         nonnull = s_[2]
                     elif t[0] == "bin" and t[1] in ("!=", "==") and {uncast(t[2]), uncast(t[3])} in ({("ref", v), ("lit", "nullptr")}, {("ref", v), ("lit", "0")}):
                         nonnull = s_[2] == (t[1] == "!=")
-                    elif is_holds(t, ("un", "*", ("ref", v))):
+                    elif holds_truth(t, ("un", "*", ("ref", v)), s_[2]) is not None or holds_truth(t, ("ref", v), s_[2]) is not None:
                         if nonnull is not True:
                             bad = "`*%s` is formed before %s was tested against null" % (v, v)
-                        holds = s_[2]
+                        h1 = holds_truth(t, ("un", "*", ("ref", v)), s_[2])
+                        holds = h1 if h1 is not None else holds_truth(t, ("ref", v), s_[2])
                 if s_[0] == "ev" and s_[1].get("kind") == "CallExpr" and callee_name(s_[1])[1] == "get_alt":
                     accessed = True
             end = path[-1]
@@ -1223,7 +1275,10 @@ def rule_guard(rep, d, pats):
         paths = flow.function_paths(f, with_ctor_inits=False)
         bad = None
         for path in paths:
-            saw_true = any(s_[0] == "cond" and ir.sx(s_[1])[0] == "ref" and s_[2] for s_ in path)
+            def elem(t_):
+                t_ = uncast(t_)
+                return t_[0] == "ref" or (t_[0] == "un" and t_[1] == "*") or t_[0] == "index"
+            saw_true = any(s_[0] == "cond" and elem(ir.sx(s_[1])) and s_[2] for s_ in path)
             end = path[-1]
             if end[0] != "return":
                 bad = "a path does not return"
